@@ -948,20 +948,24 @@ class Interp:
 
     def bind_closure_args(self, clo, args, kwargs):
         params = [x.arg for x in clo.node.args.args]
+        kwonly = [x.arg for x in clo.node.args.kwonlyargs]      # keyword-only parameters (helpers executed in place)
         if len(args) > len(params):
             raise PyRaise('TypeError')
         inner = ChainEnv(clo.env)
         for nm, v in zip(params, args):
             inner[nm] = v
         for nm, v in kwargs.items():
-            if nm not in params or nm in inner.own():
+            if (nm not in params and nm not in kwonly) or nm in inner.own():
                 raise PyRaise('TypeError')
             inner[nm] = v
         nd = len(clo.defaults)
         for nm, v in zip(params[len(params) - nd:], clo.defaults):
             if nm not in inner.own():
                 inner[nm] = v
-        for nm in params:
+        for nm, v in getattr(clo, 'kw_defaults', {}).items():
+            if nm not in inner.own():
+                inner[nm] = v
+        for nm in params + kwonly:
             if nm not in inner.own():
                 raise PyRaise('TypeError')
         return inner
@@ -995,10 +999,22 @@ class Interp:
         if len(found) != 1:
             return None
         fn = found[0]
-        if fn is self.x.node or fn.decorator_list:
+        if fn is self.x.node:
             return None
+        # decorators: none, or exactly @staticmethod / @classmethod on a helper called on the receiver.  A classmethod helper gets the
+        # receiver itself as `cls` only when the function under contract is a classmethod too (then the receiver IS the class object)
+        deco = [d.id for d in fn.decorator_list if isinstance(d, ast.Name)]
+        if len(deco) != len(fn.decorator_list) or deco not in ([], ['staticmethod'], ['classmethod']):
+            return None
+        own_deco = [d.id for d in self.x.node.decorator_list if isinstance(d, ast.Name)]
+        if deco and receiver is None:
+            return None
+        if deco == ['classmethod'] and own_deco != ['classmethod']:
+            return None
+        if deco == [] and receiver is not None and own_deco in (['classmethod'], ['staticmethod']):
+            return None        # cls.method(...) of a plain method: an unbound call, not modelled
         a = fn.args
-        if a.vararg or a.kwarg or a.kwonlyargs or a.posonlyargs:
+        if a.vararg or a.kwarg or a.posonlyargs:
             return None
         depth = getattr(self, '_helper_depth', 0)
         if depth > 3:
@@ -1017,10 +1033,13 @@ class Interp:
         clo = ClosureV(fn, ChainEnv({}))
         clo.callable = True
         clo.defaults = [self.eval(d, {}) for d in a.defaults]
+        clo.kw_defaults = {arg.arg: self.eval(d, {}) for arg, d in zip(a.kwonlyargs, a.kw_defaults) if d is not None}
         clo.generator_helper = gen
         self.eng.inlined_helpers.add(name if receiver is None else '%s.%s' % (self.x.cls.name, name))
         if receiver is None:
             return clo
+        if deco == ['staticmethod']:
+            return FuncV('helper.' + name, lambda p, args, kw, _c=clo: self.call_closure(_c, list(args), kw))
         return FuncV('helper.' + name, lambda p, args, kw, _c=clo, _o=receiver: self.call_closure(_c, [_o] + list(args), kw))
 
     def call_generator_helper(self, clo, args, kwargs, consumer):
@@ -2280,6 +2299,12 @@ class Interp:
             if h is not None:
                 return h
             raise Unsupported('attribute %s.%s' % (o.name or o.cls, attr))
+        if isinstance(o, StrV) and o.value is not None and attr == 'format':
+            # a literal template with plain auto-numbered fields only: '..{}..'.format(a, ..) IS the f-string f'..{a}..' (both render
+            # format(a, '') between the literal pieces) -- one normal form for the two spellings, before any contract-specific model
+            nf = self._format_normal_form(o)
+            if nf is not None:
+                return nf
         vm = self.loops.get('value_methods')
         if vm:
             # methods of builtin values given by the contract (library contracts, e.g. str.join / str.format / list.extend as
@@ -2394,6 +2419,32 @@ class Interp:
                 return o.kv(i.t)[1]
             raise Unsupported('lookup in a dict comprehension keyed by other than the position')
         raise Unsupported('subscript of %s' % type(o).__name__)
+
+    def _format_normal_form(self, tmpl):
+        import string
+        try:
+            fields = list(string.Formatter().parse(tmpl.value))
+        except ValueError:
+            return None
+        if not all(f[1] is None or (f[1] == '' and f[2] == '' and f[3] is None) for f in fields):
+            return None
+        n = sum(1 for f in fields if f[1] is not None)
+        vm = self.loops.get('value_methods') or {}
+        fallback = vm.get(('StrV', 'format'))
+
+        def fmt(p, args, kw):
+            if kw or len(args) != n:
+                if fallback is not None:
+                    return fallback.fn(p, [tmpl] + list(args), kw)
+                raise Unsupported('str.format arguments')
+            parts, rest = [], list(args)
+            for lit, name, _, _ in fields:
+                if lit:
+                    parts.append(('lit', lit))
+                if name is not None:
+                    parts.append(('fmt', rest.pop(0), -1, None))
+            return StrV(None, parts=parts)
+        return FuncV('str.format', fmt)
 
     def call(self, f, args, kwargs):
         if isinstance(f, FuncV):
